@@ -451,6 +451,7 @@ func corr(seed uint64, n int, exh int) {
 	}
 	corrExt(hx.NewRng(seed^0x13e), n, &id)
 	corrExt2(hx.NewRng(seed^0x13b2), n, &id)
+	corrSweep(hx.NewRng(seed^0x5eeb), &id) // every method at every alignment with every size class: sweep.go
 	out.Flush()
 }
 
@@ -588,7 +589,8 @@ func search(seed uint64, n int, exh int) {
 			}
 		}
 	}
-	evals += hygiene(seed, n) // cross-cutting oracles: hygiene.go
+	evals += searchSweep(hx.NewRng(seed ^ 0x5eeb)) // every method at every alignment with every size class: sweep.go
+	evals += hygiene(seed, n)                      // cross-cutting oracles: hygiene.go
 	fmt.Fprintf(out, "EVALS\t%d\n", evals)
 	out.Flush()
 }
